@@ -11,6 +11,7 @@ import (
 	"regexp"
 	"strconv"
 	"sync"
+	"sync/atomic"
 
 	"github.com/andybalholm/brotli"
 	"github.com/golang/snappy"
@@ -34,6 +35,8 @@ type respCase struct {
 	Path      string `json:"path"`
 	Status    int    `json:"status"`
 	Members   int    `json:"members"`
+	Storm     bool   `json:"storm"`
+	Requests  int    `json:"requests"`
 
 	body    []byte
 	encoded []byte
@@ -148,6 +151,60 @@ func refDecode(enc string, b []byte) ([]byte, error) {
 	return nil, fmt.Errorf("client cannot decode %s", enc)
 }
 
+// respStorm a server reconfigured back and forth while it answers
+func respStorm(w *world.World, raw json.RawMessage, n int) map[string]interface{} {
+	a := server.ServerOption{Cache: "resp", Locations: []string{"loc"}, CompressMinLength: 10, CompressContentTypeFilter: regexp.MustCompile("json")}
+	b := server.ServerOption{Cache: "resp", Locations: []string{"loc"}, CompressMinLength: 100000, CompressContentTypeFilter: regexp.MustCompile("text")}
+	w.AddHandler("storm", a)
+	old := w.Policy
+	defer func() { w.Policy = old }()
+	body := bytes.Repeat([]byte("storm body "), 182)[:2000]
+	w.Policy = func(ri *world.ReqInfo, req *http.Request) world.Outcome {
+		h := http.Header{}
+		h.Set("Content-Type", "text/plain")
+		h.Set("Cache-Control", "no-cache")
+		return world.Outcome{Kind: "raw", Header: h, Status: 200, Body: body}
+	}
+	stop := make(chan struct{})
+	var wg sync.WaitGroup
+	wg.Add(1)
+	go func() {
+		defer wg.Done()
+		for i := 0; ; i++ {
+			select {
+			case <-stop:
+				return
+			default:
+			}
+			if i%2 == 0 {
+				w.UpdateHandler("storm", b)
+			} else {
+				w.UpdateHandler("storm", a)
+			}
+		}
+	}()
+	var asked, compressed int32
+	for g := 0; g < 4; g++ {
+		wg.Add(1)
+		go func(g int) {
+			defer wg.Done()
+			for k := 0; k < n/4; k++ {
+				r := w.DoCase("", "storm", "POST", "h", fmt.Sprintf("/storm/%d/%d", g, k), http.Header{"Accept-Encoding": []string{"br"}}, nil)
+				atomic.AddInt32(&asked, 1)
+				if r.Header.Get("Content-Encoding") != "" {
+					atomic.AddInt32(&compressed, 1)
+				}
+			}
+			if g == 0 {
+				close(stop)
+			}
+		}(g)
+	}
+	wg.Wait()
+	w.TakeTrace()
+	return map[string]interface{}{"case": raw, "asked": int(asked), "compressed": int(compressed)}
+}
+
 // Response runs the C05/C13 cases
 func Response(w *world.World, raws []json.RawMessage) ([]interface{}, error) {
 	w.Configure([]world.DispCfg{{Name: "resp", Size: 0, HfpTTL: 300, HasStore: true}})
@@ -164,6 +221,8 @@ func Response(w *world.World, raws []json.RawMessage) ([]interface{}, error) {
 		{Addr: ":7001", Cache: "resp", Locations: []string{"loc"}, CompressContentTypeFilter: "json|png"},
 		{Addr: ":7002", Cache: "resp", Locations: []string{"loc"}},
 	}, map[string]string{":7001": "cfgjson", ":7002": "cfgdefault"})
+	w.AddHandler("filteru0", server.ServerOption{Cache: "resp", Locations: []string{"loc"}, CompressContentTypeFilter: regexp.MustCompile("json")})
+	w.UpdateHandler("filteru0", server.ServerOption{Cache: "resp", Locations: []string{"loc"}})
 	var opsMu sync.Mutex
 	var ops []compOp
 	compress.VerifInstall(func(enc string, level int) {
@@ -242,6 +301,35 @@ func Response(w *world.World, raws []json.RawMessage) ([]interface{}, error) {
 			o["ceAgain"] = r2.Header.Get("Content-Encoding")
 			take()
 		}
+		o["mixedBad"] = 0
+		if c.Path == "hit" && p.i%4 == 0 {
+			// clients of every Accept-Encoding class hit the entry at the same time
+			aes := []string{"", "gzip", "br", c.Accept}
+			alone := map[string]string{}
+			for _, ae := range aes {
+				alone[ae] = w.DoCase("", c.Setting, "GET", "h", p.uri, hdr(ae), c).Header.Get("Content-Encoding")
+			}
+			var bad int32
+			var wg sync.WaitGroup
+			for g := 0; g < 8; g++ {
+				wg.Add(1)
+				go func(g int) {
+					defer wg.Done()
+					for k := 0; k < 6; k++ {
+						ae := aes[(g+k)%len(aes)]
+						r := w.DoCase("", c.Setting, "GET", "h", p.uri, hdr(ae), c)
+						e := r.Header.Get("Content-Encoding")
+						d, err := refDecode(e, r.Body)
+						if e != alone[ae] || err != nil || !bytes.Equal(d, c.body) {
+							atomic.AddInt32(&bad, 1)
+						}
+					}
+				}(g)
+			}
+			wg.Wait()
+			o["mixedBad"] = int(bad)
+			take()
+		}
 		if derr != nil {
 			o["decodeErr"] = derr.Error()
 		}
@@ -260,6 +348,10 @@ func Response(w *world.World, raws []json.RawMessage) ([]interface{}, error) {
 			c := &respCase{}
 			if err := json.Unmarshal(raws[i], c); err != nil {
 				return nil, err
+			}
+			if c.Storm {
+				out = append(out, respStorm(w, raws[i], c.Requests))
+				continue
 			}
 			c.body = makeBody(c, i)
 			enc, err := refEncode(c.UpEnc, c.body)
